@@ -3,6 +3,7 @@ use crate::report::{CheckOutput, Ctx};
 pub mod c01;
 pub mod c02;
 pub mod c03;
+pub mod c04;
 pub mod c05;
 pub mod c06;
 pub mod c07;
@@ -23,6 +24,7 @@ pub fn run(ctx: &Ctx) -> Option<CheckOutput> {
 		"C01" => c01::run(ctx),
 		"C02" => c02::run(ctx),
 		"C03" => c03::run(ctx),
+		"C04" => c04::run(ctx),
 		"C05" => c05::run(ctx),
 		"C06" => c06::run(ctx),
 		"C07" => c07::run(ctx),
@@ -38,6 +40,17 @@ pub fn run(ctx: &Ctx) -> Option<CheckOutput> {
 		"C18" => c18::run(ctx),
 		_ => return None,
 	})
+}
+
+/// Worker sub-process entry (crash isolation).
+pub fn worker(check: &str, tier: &str, part: usize, nparts: usize, start: usize, progress: &str) {
+	match check {
+		"C04" => c04::worker(tier, part, nparts, start, progress),
+		_ => {
+			eprintln!("no worker for {check}");
+			std::process::exit(3);
+		}
+	}
 }
 
 /// Re-executes a recorded violation without the explorer. Exit 1 if it still violates.
@@ -57,6 +70,7 @@ pub fn replay_file(path: &str) -> i32 {
 			"C01" => c01::replay(case),
 			"C02" => c02::replay(case),
 			"C03" => c03::replay(case),
+			"C04" => c04::replay(case),
 			"C05" => c05::replay(case),
 			"C06" => c06::replay(case),
 			"C07" => c07::replay(case),
